@@ -33,14 +33,13 @@ var c03Table = map[string]string{
 }
 
 // reflect operations on default-derived values that are kind-safe, with the reason (R03.4 kind table).
+// (Int / Uint / Float are NOT in the table: on the default itself — a float64 when the document came from JSON or YAML —
+// they panic; the code applies them to the result of Convert(int64 / uint64 / float64), which is not "the default".)
 var c03KindSafe = map[string]string{
 	"(reflect.Value).Bool":    "reached only under target.Kind() == Bool, i.e. declared type boolean, whose JSON default decodes to bool (Zero(target.Type()) otherwise)",
 	"(reflect.Value).Convert": "reached only under a numeric target kind; a JSON numeric default decodes to float64 (or the Zero of the numeric target), both convertible to int64/uint64/float64",
 	"(reflect.Value).String":  "reflect.Value.String never panics",
 	"(reflect.Value).Kind":    "total",
-	"(reflect.Value).Int":     "applied to the result of Convert(int64)",
-	"(reflect.Value).Uint":    "applied to the result of Convert(uint64)",
-	"(reflect.Value).Float":   "applied to the result of Convert(float64)",
 	"(reflect.Value).Type":    "defVal is always valid here (Zero of a type or ValueOf a non-nil default)",
 	"(reflect.Value).IsValid": "total",
 	"(reflect.Value).Bytes":   "kind-unsafe in itself (a JSON default for format byte is a string), but unreachable with the stock strfmt registry: format byte maps to strfmt.Base64, a TextUnmarshaler, which tryUnmarshaler handles before this point (that earlier site is the known finding)",
@@ -195,6 +194,67 @@ func runC03(c *Ctx) {
 		c.obI("R03.3", r, "nil-type-only-for-unknown", ok, "typeForSchema yields no Go type only for an array without typed items or for a type it does not know: every known type (with or without format) maps to a Go type", "a declared type the language allows (e.g. number without format) falls through to `return nil`, which sends the binder to dereference a nil Schema")
 	}
 	c.obRF("R03.3", tf, "has-fallback", nNil >= 1, "typeForSchema has an unknown-type fallback", "")
+	// a numeric type without a (known) format maps to the WIDEST Go type of its family — int64 for integer, float64 for
+	// number: every literal the declared type allows is then representable (a narrower default refuses values the
+	// declaration admits)
+	{
+		// (type and format are the function's two string parameters, in that order — whatever else it takes)
+		var strPrms []*ssa.Parameter
+		for _, prm := range tf.Params {
+			if typeStr(prm.Type()) == "string" {
+				strPrms = append(strPrms, prm)
+			}
+		}
+		var tpe, format ssa.Value = tpe, nil
+		if len(strPrms) >= 2 {
+			tpe, format = strPrms[0], strPrms[1]
+		}
+		eq := func(prm ssa.Value, want string, anyConst bool) EdgePred {
+			return func(cond ssa.Value, branch bool) bool {
+				cnd, b := stripNot(cond, branch)
+				bo, ok := cnd.(*ssa.BinOp)
+				if !ok || prm == nil || (bo.Op != token.EQL && bo.Op != token.NEQ) || bo.X != prm {
+					return false
+				}
+				k, isC := constString(bo.Y)
+				if !isC || (!anyConst && k != want) {
+					return false
+				}
+				return b == (bo.Op == token.EQL)
+			}
+		}
+		nDef := 0
+		for _, r := range returnsOf(tf) {
+			var got string
+			okT, _ := allOrigins(r.Results[0], func(o Origin) bool {
+				call := asCall(o.V)
+				if call == nil {
+					// a package-level `var int64Type = reflect.TypeOf(int64(0))`
+					if ad, isLd := derefLoad(o.V); isLd {
+						if g, isG := ad.(*ssa.Global); isG {
+							call = globalInitCall(p, g, "reflect.TypeOf")
+						}
+					}
+				}
+				if call == nil || calleeName(&call.Call) != "reflect.TypeOf" {
+					return false
+				}
+				got = typeStr(unboxed(call.Call.Args[0]).Type())
+				return true
+			})
+			if !okT || got == "" {
+				continue
+			}
+			for fam, widest := range map[string]string{"integer": "int64", "number": "float64"} {
+				if !guardedBy(r, nil, eq(tpe, fam, false)) || guardedBy(r, nil, eq(format, "", true)) {
+					continue // another family, or an arm selected by a format
+				}
+				nDef++
+				c.obI("R03.3", r, "format-less-"+fam+"-maps-to-"+widest, got == widest, "type "+fam+" without a known format maps to "+widest, "it maps to "+got)
+			}
+		}
+		c.obRF("R03.3", tf, "numeric-default-arms", nDef >= 2, "typeForSchema has default arms for integer and number", fmt.Sprintf("%d", nDef))
+	}
 
 	// the element type of an array is computed from the ITEMS' declaration
 	nRec := 0
